@@ -4,6 +4,7 @@
 #include "vf_main.hpp"
 #include "ref.hpp"
 #include "mcmap.hpp"
+#include "rec.hpp"
 #include "hep/mc-mpi.hpp"
 
 typedef VF_T T;
@@ -173,6 +174,7 @@ struct RunState
     std::size_t zero_iteration = ~std::size_t(0);
     T power = T(2);
     T cut = T();                         // phase-space cut: the integrand is zero where all densities vanish (the weight is infinite there)
+    unsigned nonfinite_pm = 0;           // per mille of the points (hash of the coordinates) at which the integrand returns NaN / inf
     std::vector<T> prev_weights, prev_data;
     std::vector<std::string> pending;    // judged on the main thread (rank threads only record)
 };
@@ -183,8 +185,21 @@ T run_f(hep::multi_channel_point<T> const& p)
     RunState& r = *g_run;
     if (r.iteration == r.zero_iteration) return T();
     if (p.coordinates()[0] < r.cut) return T();
+    if (r.nonfinite_pm)
+    {
+        std::uint64_t h = point_hash(p.coordinates(), 77);
+        if (h % 1000 < r.nonfinite_pm) return (h & 1024) ? std::numeric_limits<T>::quiet_NaN() : std::numeric_limits<T>::infinity();
+    }
     T v = T(1);
     for (T x : p.coordinates()) v *= (r.power + T(1)) * std::pow(x, r.power);
+    return v;
+}
+
+// the same integrand filling a distribution (the library has a separate accumulator for integrands with distributions)
+T run_f_dist(hep::multi_channel_point<T> const& p, hep::projector<T>& proj)
+{
+    T v = run_f(p);
+    proj.add(0, p.coordinates()[0], v);
     return v;
 }
 
@@ -258,8 +273,11 @@ void in_run(Rng& rng)
     if (rng.below(2)) r.zero_iteration = rng.range(0, iters - 1);
     std::size_t calls = rng.range(100, 1500);
     if (rng.below(3) == 0) { r.cut = map.cut = T(0.05L + 0.3L * rng.u01l()); count("runs_with_a_cut_where_all_densities_vanish"); }
+    bool with_dist = rng.below(3) == 0;
+    if (rng.below(3) == 0) { r.nonfinite_pm = 50; count("runs_with_non-finite_integrand_values"); }
+    if (with_dist) count("runs_with_a_distribution");
     J info;
-    info.f("cut", r.cut).s("T", tname<T>::get()).u("channels", n).u("dims", dims).fv("a", map.a).f("jac", map.jac).s("weights_kind", wk).fv("user_weights", user)
+    info.f("cut", r.cut).b("with_distribution", with_dist).u("nonfinite_per_mille", r.nonfinite_pm).s("T", tname<T>::get()).u("channels", n).u("dims", dims).fv("a", map.a).f("jac", map.jac).s("weights_kind", wk).fv("user_weights", user)
         .f("beta", beta).f("min_weight", minw).u("iterations", iters).u("calls", calls).f("integrand_power", r.power)
         .i("zero_iteration", r.zero_iteration == ~std::size_t(0) ? -1 : (long long)r.zero_iteration);
     typedef hep::multi_channel_chkpt_with_rng<std::mt19937, T> chk_t;
@@ -279,7 +297,9 @@ void in_run(Rng& rng)
     g_run = &r;
     int P = rng.below(3) == 0 ? (int)rng.range(2, 4) : 1;
     if (r.zero_iteration != ~std::size_t(0)) P = 1;      // the zero iteration is keyed on a shared counter
-    if (P == 1) hep::multi_channel(hep::make_multi_channel_integrand<T>(run_f, dims, map, dims, n), std::vector<std::size_t>(iters, calls), chk, cb);
+    if (P == 1 && with_dist)
+        hep::multi_channel(hep::make_multi_channel_integrand<T>(run_f_dist, dims, map, dims, n, hep::make_dist_params<T>(4, T(0), T(1), "x")), std::vector<std::size_t>(iters, calls), chk, cb);
+    else if (P == 1) hep::multi_channel(hep::make_multi_channel_integrand<T>(run_f, dims, map, dims, n), std::vector<std::size_t>(iters, calls), chk, cb);
     else
     {
         // shim MPI: rank 0 carries the judging callback, the other ranks a callback that only continues
@@ -291,6 +311,8 @@ void in_run(Rng& rng)
         {
             VfWorld world;
             std::vector<std::size_t> seg(phase ? iters - first : first, calls);
+            // some iterations have fewer calls than ranks (the last ranks get none) or just a few more
+            for (auto& sc : seg) if (rng.below(3) == 0) { sc = rng.range(1, 2 * P); count("mpi_iterations_with_about_as_many_calls_as_ranks"); }
             chk_t start = phase ? mid : chk;
             vf_mpi_run(world, P, rng.next(), [&](int rank, MPI_Comm comm) {
                 auto integrand = hep::make_multi_channel_integrand<T>(run_f, dims, map, dims, n);
